@@ -19,6 +19,7 @@ type c15Case struct {
 	Training, Target string
 	Placeholder      string
 	Picks            []int `json:",omitempty"`
+	FullPerm         int   `json:",omitempty"` // explore all orders of map ranges of up to this many keys in lib/common/set
 }
 
 // bookingAccounts lists (credit, debit) of every booking of every transaction.
@@ -131,6 +132,10 @@ func c15One(e *core.Env, drv *core.Driver, cs c15Case, explore bool) (string, st
 		bounds = core.Bounds{}
 	}
 	x := core.Explorer{Bounds: bounds, Policies: explore, NoMap: !explore, MaxExec: 20000, Stop: e.Expired, Cache: true}
+	if cs.FullPerm > 0 {
+		// every order of the token set (ranges in lib/common/set), one deviation
+		x = core.Explorer{Bounds: core.Bounds{Map: 1}, Policies: true, MaxExec: 60000, Stop: e.Expired, Cache: true, FullPerm: cs.FullPerm, FullPermSite: "set/set.go"}
+	}
 	st := x.Explore(func(c *core.Ctx) {
 		o := drv.Run(c, args...)
 		if ab := o.Abnormal(); ab != "" {
@@ -162,7 +167,7 @@ func c15One(e *core.Env, drv *core.Driver, cs c15Case, explore bool) (string, st
 		case std.Exit == 0 && got != std.Stdout:
 			key, detail = "C15:inplace-differs", fmt.Sprintf("file written by --inplace differs from the stdout result\nfile:\n%s\nstdout:\n%s", got, std.Stdout)
 		case ip.Stdout != "":
-			key, detail = "C15:inplace-differs", "--inplace also wrote to stdout: " + ip.Stdout
+			key, detail = "C15:inplace-differs", "--inplace also wrote to stdout: "+ip.Stdout
 		}
 	}
 	if key == "" && len(outcomes) > 1 {
@@ -222,6 +227,19 @@ func c15Targets(ph string) []string {
 
 func c15Run(e *core.Env) {
 	drv := e.Driver()
+	if e.Take() {
+		cs := c15CrossedTies()
+		key, detail, picks, st := c15One(e, drv, cs, true)
+		e.Count("evaluations")
+		e.AddStats(st)
+		e.Note("crossed-ties input: %d map orders explored", st.Executions)
+		if key == "ENGINE" {
+			e.EngineError("%s", detail)
+		} else if key != "" {
+			cs.Picks = picks
+			e.Violation(key, detail, cs, func() bool { k, _, _, _ := c15One(e, drv, cs, true); return k == key })
+		}
+	}
 	for _, ph := range []string{"Expenses:TBD", "Assets:X"} {
 		trainings, targets := c15Training(ph), c15Targets(ph)
 		e.Note("placeholder %s: %d training journals x %d target journals", ph, len(trainings), len(targets))
@@ -260,6 +278,23 @@ func c15Run(e *core.Env) {
 			}
 		}
 	}
+}
+
+// c15CrossedTies: two candidates whose scores are mathematically equal (same prior, same
+// multiset of per-token likelihoods) but attached to different words, plus a token that
+// the training never saw: a score summed in floating point in an order that depends on
+// map iteration breaks the tie differently from run to run.
+func c15CrossedTies() c15Case {
+	var tr []jr.Dir
+	for i, d := range []string{"purchase migros basel card", "purchase basel card", "purchase card", "purchase"} {
+		tr = append(tr, jr.T(fmt.Sprintf("2023-01-%02d", 5+7*i), d, jr.B("Assets:Bank", "Expenses:Groceries", "50", "CHF")))
+	}
+	for i, d := range []string{"purchase migros basel card", "purchase migros card", "purchase migros", "purchase"} {
+		tr = append(tr, jr.T(fmt.Sprintf("2023-02-%02d", 5+7*i), d, jr.B("Assets:Bank", "Expenses:Household", "50", "CHF")))
+	}
+	tg := []jr.Dir{jr.T("2023-03-01", "migros basel card bahnhof", jr.B("Assets:Bank", "Expenses:TBD", "25", "CHF")),
+		jr.T("2023-03-02", "migros basel card kiosk", jr.B("Assets:Bank", "Expenses:TBD", "26", "CHF"))}
+	return c15Case{Training: jr.RenderAll(tr), Target: jr.RenderAll(tg[:1]), Placeholder: "Expenses:TBD", FullPerm: 7}
 }
 
 func c15Replay(e *core.Env, data json.RawMessage) (bool, string) {
